@@ -643,6 +643,25 @@ class StmtMixin(object):
         for _ in range(10000):
             t = self.truth(self.eval(st.test, env))
             if not isinstance(t, bool):
+                fc = self._float_controlled_output(st, t, env)
+                if not fc and self._emits_output(st):
+                    # the compared value may only become a rounded quantity inside the body (r = r0; while r <= rmax: ...; r += dr):
+                    # look at the condition again after one abstract iteration
+                    self.path_conds.append((t, True))
+                    try:
+                        self.exec_block(st.body, env)
+                        fc = self._float_controlled_output(st, self.truth(self.eval(st.test, env)), env)
+                    except (AnalysisError, RaiseSignal, BreakSignal, ContinueSignal, ReturnSignal):
+                        fc = False
+                    finally:
+                        self.path_conds.pop()
+                if fc:
+                    # how many records are produced is decided by comparing floating-point values that came out of a
+                    # division: for some inputs rounding adds or drops an iteration (no 'for all grids' statement can hold)
+                    from .symeval_ops import ExcV
+                    raise RaiseSignal(ExcV(ExtV("verif.FloatControlledOutputLoop"),
+                                           [Const("the number of iterations of an output loop depends on the floating-point comparison %s"
+                                                  % ast.unparse(st.test))]), st)
                 self.err(st, "while loop with symbolic condition")
             if not t:
                 break
@@ -655,6 +674,30 @@ class StmtMixin(object):
         else:
             self.err(st, "while loop did not terminate in 10000 abstract steps")
         self.exec_block(st.orelse, env)
+
+    def _float_controlled_output(self, st, t, env):
+        if isinstance(t, bool) or not (isinstance(st.test, ast.Compare) and len(st.test.ops) == 1
+                                       and isinstance(st.test.ops[0], (ast.Lt, ast.LtE, ast.Gt, ast.GtE))):
+            return False
+        try:
+            operands = [self.eval(st.test.left, env), self.eval(st.test.comparators[0], env)]
+        except (AnalysisError, RaiseSignal):
+            return False
+        if not all(isinstance(a, Num) for a in operands) or not any(getattr(a, "inexact", False) for a in operands):
+            return False
+        return self._emits_output(st)
+
+    def _emits_output(self, st):
+        for n in ast.walk(ast.Module(body=st.body, type_ignores=[])):
+            if isinstance(n, (ast.Yield, ast.YieldFrom)):
+                return True
+            if isinstance(n, ast.Call):
+                f = n.func
+                if isinstance(f, ast.Attribute) and f.attr in ("write", "writelines", "append", "extend", "writerow"):
+                    return True
+                if isinstance(f, ast.Name) and f.id == "print":
+                    return True
+        return False
 
     # ----------------------------------------------------------------- for
     def s_For(self, st, env):
